@@ -27,6 +27,7 @@ periodic_code_eq_from_atomic concat2_cm_eq_from_scratch pc_sums_to_from_scratch 
 cm_concat2_assoc concat_regroup_left concat_regroup_right periodic_eq_from_scratch'''.split()
 THEOREMS = ['FFVerif.C03a.' + t for t in THEOREMS_A] + ['FFVerif.C03c.' + t for t in THEOREMS_C]
 LEAN_MODULES = ['FFVerif.Props.C03a', 'FFVerif.Props.C03c']
+PINS = ['pinConcatenate', 'pinConcatenateWithoutFF', 'pinControlMatrixFromAtomic']
 GEN_SITES = ['einsum:numeric_calculate_control_matrix_from_atomic_0',
              'einsum:numeric_calculate_pulse_correlation_filter_function_0',
              'einsum:numeric_calculate_pulse_correlation_filter_function_1',
